@@ -12,12 +12,14 @@ def run(chk):
                 '--trash-dir; the four readers are observed: the path and date trash-list shows; the path and date '
                 'trash-restore shows for the same entry; whether trash-rm with that exact path removes it and with a '
                 'one-byte-different path does not; whether trash-empty DAYS keeps it at date + DAYS days and purges it '
-                'one second later. TLC (FunTrace) checks every observation against Meaning / Expired / RmMatches of '
+                'one second later; stage foreign-restore: the single entry of a trash directory is really restored and the place '
+                'where its payload lands is compared with Meaning (Path values with trailing slashes included). TLC (FunTrace) checks every observation against Meaning / Expired / RmMatches of '
                 'spec/TrashInfo.tla, Dates.tla, Glob.tla. For CRLF / trailing blanks only the four-way agreement is '
                 'required. distinct by observation class x content')
     chk.assumptions += common.ASSUME
     common.fun_laws(chk)
     common.fun_stage(chk, 'foreign', 'foreign', 120 if quick else 1500)
+    common.fun_stage(chk, 'foreign-restore', 'frestore', 40 if quick else 500)
     common.fun_stage(chk, 'foreign-home-own-volume', 'foreign', 60 if quick else 700, {'home_own_volume': True})
 
 
